@@ -52,6 +52,8 @@ class AtomGraph:
         mol = Chem.EditableMol(Chem.MolFromSmiles(""))
         for node in self.graph.nodes(data=True):
             atom = Chem.Atom(node[1]["atomic_num"])
+            stochastic_node = self.stochastic_graph.nodes[node[1]["stochastic_node"]]
+            atom.SetFormalCharge(int(stochastic_node["formal_charge"]))
             mol.AddAtom(atom)
         for edge in self.graph.edges(data=True):
             bond_type = Chem.BondType(edge[2]["bond_type"])
